@@ -40,6 +40,18 @@ CLAIMED = {
    text="ParserShape's OnlyValid invariant (no weight above 1, no equal-card pair accepted) is checked by TLC on all bounded strings. Binding: every Ok result of the C05 corpus (all well-formed tokens x literals, lists) and of the C09 corpus (incl. suffixes :1.5, :1.75, :1.00000001, :2, equal-card pairs, edits, Unicode) is recorded with card ids and weight bits; TLC checks two different cards and weight bits within [0, 1.0]; showdowns enumerated from the parsed ranges must have distinct cards and a probability in [0,1].",
    note="Trusted: f32::to_bits as the lossless view of a weight (non-negative floats order like their bits), harness, TLC. Strings are bounded/sampled.",
    technique="TLA+ parser model + ValidRange invariant with TLC; trace validation of parsed values", ref="DESIGN.md 5/C10"),
+ "C06": dict(
+   text="TLC checks the run-merging scanner model (RowFmt) for every row of every length up to 10 (13 thorough): reading the emitted tokens back gives the row. Binding: ranges built from every absent/a/b pattern of every short suited/offsuit row, structured and random patterns of the long rows and the pocket row, all partial patterns inside one rank pair, random structured ranges, with weights incl. 0, a subnormal, 1-ulp, random bit patterns in [0,1] and -0.0, are formatted and re-parsed by the real code; TLC compares the re-parsed map with the original bit for bit. Every well-formed token's text is parsed back and compared too.",
+   note="Trusted: f32::to_bits as the view of a weight, harness, TLC; the f32-to-decimal conversion is Rust's and is observed, not modelled. Known finding (not repaired): weight -0.0 prints ':-0' and is dropped on re-parsing - listed in known_findings.json by exact input.",
+   technique="TLA+ scanner model checked with TLC for all rows; trace validation of format/re-parse round trips", ref="DESIGN.md 5/C06"),
+ "C12": dict(
+   text="TLC checks that the implementation's probe-one-combo-then-all() test equals the definition (all combos present with one weight) for all 3^4, 3^6 and 3^12 patterns of one rank pair. Binding: for sampled rank pairs all 729 / 81 patterns and the <=2-deviation family plus random patterns of the 3^12, row patterns and random whole ranges are split by the real code; TLC recomputes the complete rank pairs and the leftovers from the logged contents and compares rank_pairs() and orphan_card_pairs() with them (exact sets, weights bit for bit, partition).",
+   note="Trusted: RangeFmt.tla's definition of 'complete', harness, TLC. Mixed +0.0/-0.0 inside one rank pair and NaN weights are not generated (f32 == vs bit equality).",
+   technique="TLA+ definition vs implementation-shaped test with TLC; trace validation of the split", ref="DESIGN.md 5/C12"),
+ "C17": dict(
+   text="TLC checks Canonical (one token per maximal run, nothing mergeable) for every row of every length up to 10 (13 thorough) on the scanner model, and enumerates every construction history up to depth 3 over a small universe (RangeBuild). Binding: those histories (executed by parse and by collect()), every pattern of the short rows, and random ranges rebuilt along 6 (16) shuffled collect / insert-and-overwrite histories are formatted by the real code; TLC recomputes the maximal runs from the logged contents and requires one token per run in the stated order (pockets, then per high card suited then offsuit, then leftovers), each denoting exactly its run with its weight, leftovers = orphans, and identical text for identical contents.",
+   note="Trusted: RangeFmt.tla's definition of rows and runs, harness (groups equal contents; TLC re-checks equality), TLC. Spelling of a run ('X+' vs 'X-Y') and leftover order are compared only at implementation level (MODEL-DRIFT note, no verdict).",
+   technique="TLA+ canonical-text spec + history enumeration with TLC; trace validation of to_string()", ref="DESIGN.md 5/C17"),
  "C07": dict(
    text="Category boundaries of the class numbering are derived from the rules by TLC (MCPoker); hand_type() of concrete hands for every key - hence every one of the 4,824 reachable classes including the first and last of each category - is validated by TLC against the category of Eval7(cards), and hand_type() is compared on all 133,784,560 sets with the TLC-exported categories. Exhaustive.",
    note="Trusted: Poker.tla, harness projection (category compared through its Debug name), TLC.",
